@@ -20,7 +20,9 @@ def specs(tier):
     for eps, delta in ed:
         out.append({'mech': 'mst', 'eps': eps, 'delta': delta})
         for rounds in [1, 2, 3, None]:
-            for wl in ([[('A', 'B'), ('B', 'C')]] if tier == 'quick' else [[('A', 'B'), ('B', 'C')], PAIRS]):
+            for wl in ([[('A', 'B'), ('B', 'C')], [('A', 'B')]] if tier == 'quick' else [[('A', 'B'), ('B', 'C')], PAIRS, [('A', 'B')]]):
+                if len(wl) == 1 and rounds in (1, None) and tier == 'quick':
+                    continue
                 out.append({'mech': 'aim', 'eps': eps, 'delta': delta, 'rounds': rounds, 'workload': [list(c) for c in wl]})
         mw = itertools.product(['gaussian', 'laplace'], [False, True], [1, 2] if tier == 'quick' else [1, 2, 3], [0.9] if tier == 'quick' else [0.9, 0.5])
         for noise, bounded, rounds, alpha in mw:
@@ -50,6 +52,6 @@ def jobs(tier, seed):
             out.append({'spec': spec, 'ds': ds, 'sizes': sizes, 'bound': bound, 'alts': QUICK_ALTS if tier == 'quick' else FULL_ALTS,
                         'seed': seed, 'cap': cap})
     for rounds in ([1, 2, 3, 4, 6] if tier == 'quick' else [1, 2, 3, 4, 6, 8]):
-        for wl in [[['A', 'B'], ['B', 'C']], [list(p) for p in PAIRS]]:
+        for wl in [[['A', 'B'], ['B', 'C']], [list(p) for p in PAIRS], [['A', 'B']]]:
             out.append({'aimledger': True, 'rounds': rounds, 'workload': wl, 'eps': 1.0, 'delta': 1e-6, 'seed': seed, 'tier': tier})
     return out
